@@ -99,6 +99,7 @@ class AnyURI(AnyAtomicType):
         elif not isinstance(value, str):
             raise cls._invalid_type(value)
 
+        value = collapse_white_spaces(value)
         try:
             url_parts = urlparse(value)
             _ = url_parts.port  # check invalid port!
